@@ -75,7 +75,25 @@ pub struct DCfg {
     pub later: Vec<(bool, String, u64, Vec<Item>)>,
 }
 
+/// Names that are idiomatic for RTMP deployments (FMS / Wowza instance names, query strings,
+/// codec prefixes, paths).
+const IDIOMATIC_NAMES: [&str; 10] = [
+    "live/_definst_",
+    "app/_definst_/x",
+    "vod/_definst_",
+    "_definst_",
+    "live?token=abc&e=1",
+    "mp4:sample.mp4",
+    "live/stream/deep/path",
+    "LIVE",
+    "live ",
+    "rtmp://host:1935/live",
+];
+
 fn draw_name(ctx: &mut Ctx, label: &'static str) -> String {
+    if ctx.ch.chance("op.arg.idiom", 1, 8) {
+        return ctx.ch.pick("op.arg.idiomv", &IDIOMATIC_NAMES).to_string();
+    }
     match ctx.ch.weighted(label, &[4, 2, 2, 1]) {
         0 => "live".to_string(),
         1 => format!("app{}", ctx.ch.draw("op.arg.namev", 100)),
@@ -303,9 +321,27 @@ fn draw_items(ctx: &mut Ctx, cfg: &mut DCfg, chunk: u32, edge: bool) -> Vec<Item
         }
         let droppable = ctx.ch.chance("op.arg.drop", 1, 3);
         let seed = ctx.ch.sub_seed("bytes.seed");
+        let mut data = expand_bytes(seed, len);
+        if kind < 2 && same_len.is_none() && ctx.ch.chance("op.arg.mediaidiom", 1, 6) {
+            // idiomatic FLV tag bodies: AVC sequence header / keyframe / inter frame / end of
+            // sequence, AAC sequence header / raw frame
+            let pre: &[u8] = if kind == 0 {
+                *ctx.ch.pick("op.arg.mediav", &[&[0x17u8, 0, 0, 0, 0][..], &[0x17, 1, 0, 0, 0], &[0x27, 1, 0, 0, 0], &[0x17, 2, 0, 0, 0], &[0x57, 0], &[0x17]])
+            } else {
+                *ctx.ch.pick("op.arg.mediav", &[&[0xAFu8, 0, 0x12, 0x10][..], &[0xAF, 1], &[0x2F], &[0xAF, 0]])
+            };
+            if ctx.ch.chance("op.arg.mediaexact", 1, 2) || data.len() < pre.len() {
+                data = pre.to_vec();
+            } else {
+                data[..pre.len()].copy_from_slice(pre);
+            }
+            if kind < 2 {
+                last[kind].2 = data.len();
+            }
+        }
         items.push(match kind {
-            0 => Item { kind: ItemKind::Video, data: expand_bytes(seed, len), ts, droppable },
-            1 => Item { kind: ItemKind::Audio, data: expand_bytes(seed, len), ts, droppable },
+            0 => Item { kind: ItemKind::Video, data, ts, droppable },
+            1 => Item { kind: ItemKind::Audio, data, ts, droppable },
             _ => Item { kind: ItemKind::Meta(draw_metadata(ctx, if edge { Some(cfg) } else { None })), data: Vec::new(), ts: 0, droppable: false },
         });
     }
@@ -420,14 +456,22 @@ pub fn draw_cfg(ctx: &mut Ctx, mode: DMode) -> DCfg {
     let sender_chunk = if cfg.publish { cfg.c_chunk } else { cfg.s_chunk };
     cfg.items = draw_items(ctx, &mut cfg, sender_chunk, edge);
     // 0-2 further activities on the same connection (3 in the thorough tier)
-    let extra = ctx.ch.weighted("cfg.activities", &[6, 3, 1, if ctx.tier_thorough { 1 } else { 0 }]);
+    let mut extra = ctx.ch.weighted("cfg.activities", &[6, 3, 1, if ctx.tier_thorough { 1 } else { 0 }]);
+    let many = mode != DMode::C19 && ctx.ch.chance("cfg.manyactivities", 1, 150);
+    if many {
+        // rare: a long-lived connection with dozens of activities (stream ids grow past 16, 64)
+        extra = 15 + ctx.ch.draw("cfg.activitiesn", 60) as usize;
+    }
     for _ in 0..extra {
         let publish = !ctx.ch.chance("cfg.play", 1, 2);
         let key = if ctx.ch.chance("cfg.samekey", 1, 3) { cfg.key.clone() } else { draw_name(ctx, "cfg.key") };
         let key = if key.len() > 1000 { "k2".to_string() } else { key };
         let pub_type = ctx.ch.draw("cfg.pubtype", 3);
         let chunk = if publish { cfg.c_chunk } else { cfg.s_chunk };
-        let items = draw_items(ctx, &mut cfg, chunk, false);
+        let mut items = draw_items(ctx, &mut cfg, chunk, false);
+        if many {
+            items.truncate(2);
+        }
         cfg.later.push((publish, key, pub_type, items));
     }
     cfg
@@ -862,6 +906,9 @@ impl World {
             self.play_sid = None;
             self.cli_phase = CliPhase::Connected;
             ctx.probe("d.further_activity_on_same_connection");
+            if self.acts_done >= 16 {
+                ctx.probe("d.more_than_16_activities");
+            }
             ctx.tr(|| format!("  --- next activity on the same connection: {} {:?} ({} items)", if self.cfg.publish { "publish" } else { "play" }, trunc(&self.cfg.key), self.cfg.items.len()));
             return true;
         }
